@@ -246,6 +246,7 @@ def budget(tier):
 
 def gen_case(rng, tier, g):
     case = _gen_case(rng, tier, g)
+    case['fluent'] = rng.random() < 0.15
     # the host application's petl.config / logging set-up must not matter
     cfg = draw_config(rng, 0.12, exclude=('failonerror',))
     if cfg:
@@ -321,6 +322,9 @@ def _is_long(case, r):
 
 def _build(e, case, fl, policy, mode, tbl):
     """-> view, built with the policy as argument or from the config."""
+    if case.get('fluent'):
+        from sim.loader import Fluent
+        e = Fluent(e)
     form = case['form']
     kw = {}
     if mode == 'arg':
